@@ -138,7 +138,7 @@ def o_plumbing(ctx):
     ctx.claim('fresh-filenames-list', o1.filenames == ['a.pdb'] and o2.filenames == ['b.pdb'] and o1.filenames is not o2.filenames)
 
 
-def mk_option_equivalence(name):
+def mk_option_equivalence(name, amino_acids_only=True):
     """--protonate-all changes no pKa; feeding the program's own hydrogens back
     with --keep-protons reproduces the results; both under a symbolic grid
     translation of the structure"""
@@ -154,6 +154,10 @@ def mk_option_equivalence(name):
         pall = M.run(M.text(name), args=['--protonate-all'], transform=tr)
         M.compare_heavy(ctx, 'protonate-all', default, pall)
         M.compare_results(ctx, 'protonate-all', default, pall)
+        gd, gp = M.groups(default), M.groups(pall)
+        ctx.claim('protonate-all:same-groups', sorted(gd) == sorted(gp), detail='only in one: %r' % (sorted(set(gd) ^ set(gp)),))
+        if not amino_acids_only:
+            return        # the keep-protons clause is stated for amino-acid structures
         # the program's own hydrogens (written with 3 decimals in the unshifted frame) fed back:
         # identical in the same frame; in a shifted frame the freshly built hydrogens may round
         # the other way at a near-tie, so only "within the effect of rounding" (0.01) is claimed there
@@ -190,6 +194,13 @@ def obligations(tier):
                               bounds='amino-acid micro-structure %s under a symbolic grid translation t in [0,2.509] along y' % name,
                               claim_doc='every pKa and determinant identical between default and --protonate-all (any shift) and --keep-protons on the program\'s own hydrogens (same frame; within 0.01 in a shifted frame)',
                               max_paths=5000, wall_s=170 if tier == 'quick' else 1200))
+    for name in (['complex_MTX', 'lig_KNI'] if tier == 'quick' else ['complex_MTX', 'lig_KNI', 'lig_MTX', 'lig_MTX_B']):
+        obs.append(Obligation('O3-protonate-all[%s]' % name, mk_option_equivalence(name, amino_acids_only=False),
+                              code=['propka/hydrogens.py:setup_bonding_and_protonation', 'propka/protonate.py:Protonate.protonate', 'propka/protonate.py:Protonate.set_charge',
+                                    'propka/group.py:is_ligand_group_by_groups', 'propka/ligand.py:assign_sybyl_type', 'propka/run.py:single (whole pipeline)'],
+                              bounds='structure with a ligand (%s) under a symbolic grid translation t in [0,2.509] along y' % name,
+                              claim_doc='the same groups (incl. every ligand group) with identical pKa and determinants with and without --protonate-all',
+                              max_paths=5000, split_input=('shift_thousandths', 12) if name.startswith('complex') else None, wall_s=170 if tier == 'quick' else 1200))
     obs.append(Obligation('O2-element-from-name-columns', o_element_from_name_columns, code=['propka/atom.py:Atom.set_properties'],
                           bounds='the four atom-name characters symbolic over small alphabets (blank, digits 1-2, H C N O A B D E)',
                           claim_doc='every PDB spelling of a hydrogen name yields element H (so that it is stripped); C/N/O in column 14 keep their element', max_paths=20000))
